@@ -2,6 +2,7 @@
 package c05
 
 import (
+	"bufio"
 	"bytes"
 	"fmt"
 	"io"
@@ -188,6 +189,13 @@ func runDirect(c Case) *ev.Failure {
 	if sized != nil {
 		rd = sized
 	}
+	buffered := false
+	switch c.Consumer {
+	case "bufio.Reader": // what every TCP / TLS connection of the library hands to ReadMessage
+		rd, buffered = bufio.NewReader(r), true
+	case "bufio.Reader16": // the smallest buffer bufio allows: smaller than a header
+		rd, buffered = bufio.NewReaderSize(r, 16), true
+	}
 	want := 0
 	for i, orig := range msgs {
 		m, err := diam.ReadMessage(rd, dict.Default)
@@ -201,7 +209,7 @@ func runDirect(c Case) *ev.Failure {
 		if d := sameMessage(m, i, c.Fillers[i], c.NoPad, orig); d != "" {
 			return ev.Failf("message-differs", "message %d (declared length %d) %s", i, len(orig), d)
 		}
-		if r.consumed != want {
+		if !buffered && r.consumed != want { // a buffered reader reads ahead by design
 			return ev.Failf("consumed-bytes", "after message %d the reader had been asked for %d bytes, the declared lengths add up to %d", i, r.consumed, want)
 		}
 	}
@@ -218,15 +226,15 @@ func runDirect(c Case) *ev.Failure {
 		if err == nil || m != nil {
 			return ev.Failf("truncated-accepted", "stream ended %d bytes into a message: ReadMessage returned a message / no error (%v)", c.Tail.Keep, err)
 		}
-		if err == io.EOF && c.Tail.Keep >= 20 {
-			// inside a body the error text is wrapped; a bare io.EOF would read as a clean end
-			return ev.Failf("truncated-as-eof", "stream ended inside a message body but ReadMessage reported a clean io.EOF")
+		if err == io.EOF {
+			// a bare io.EOF reads as a clean end between two messages
+			return ev.Failf("truncated-as-eof", "stream ended %d bytes into a message but ReadMessage reported a clean io.EOF (reader: %s)", c.Tail.Keep, c.Consumer)
 		}
 	case "short-length":
 		if err == nil || m != nil {
 			return ev.Failf("short-length-accepted", "declared message length %d (< 20): ReadMessage returned a message / no error", c.Tail.Declared)
 		}
-		if r.consumed != want+20 {
+		if !buffered && r.consumed != want+20 {
 			return ev.Failf("short-length-read-on", "declared message length %d (< 20) must be rejected without reading further: %d bytes were consumed after the header (error: %v)", c.Tail.Declared, r.consumed-want-20, err)
 		}
 	}
@@ -406,7 +414,7 @@ func genCase(t *rapid.T) Case {
 	default:
 		c.Tail = Tail{Kind: "short-length", Declared: rapid.IntRange(0, 19).Draw(t, "declared"), Trailing: rapid.IntRange(0, 120).Draw(t, "trailing")}
 	}
-	c.Consumer = rapid.SampledFrom([]string{"direct", "direct", "conn", "conn", "bytes.Reader", "bytes.Buffer", "strings.Reader"}).Draw(t, "consumer")
+	c.Consumer = rapid.SampledFrom([]string{"direct", "direct", "conn", "conn", "bytes.Reader", "bytes.Buffer", "strings.Reader", "bufio.Reader", "bufio.Reader16"}).Draw(t, "consumer")
 	c.EOFWithData = rapid.IntRange(0, 2).Draw(t, "eof-with-data") == 0
 	c.NoPad = rapid.IntRange(0, 3).Draw(t, "no-pad") == 0
 	if c.Consumer == "conn" && rapid.Bool().Draw(t, "answer") {
@@ -438,7 +446,7 @@ func genCase(t *rapid.T) Case {
 
 var prop = ev.Register(&ev.Prop[Case]{
 	ID: "C05", Name: "stream",
-	Rule: "1..6 messages with bodies around the 1 KiB pooled buffer (996..1040), tiny, ~4 KiB, ~70 KB and (rarely) 1..8 MiB, concatenated; tail = clean end / truncation 1..79 bytes into a further message / a header declaring length 0..19 followed by 0..120 bytes that look like further messages; fragmentation = one segment / runs of 1-byte reads / boundary-sized fragments; 1 in 4 cases with every message's last AVP unpadded and the declared length exact (not a multiple of 4); consumed by ReadMessage in a loop on a scripted reader (which counts the bytes asked for), on bytes.Reader / bytes.Buffer / strings.Reader (which know how much they hold) and by the library's connection loop, whose handler optionally answers every message while one transport write is refused with a temporary error; non-trivial = >=2 messages and a read boundary strictly inside a message",
+	Rule: "1..6 messages with bodies around the 1 KiB pooled buffer (996..1040), tiny, ~4 KiB, ~70 KB and (rarely) 1..8 MiB, concatenated; tail = clean end / truncation 1..79 bytes into a further message / a header declaring length 0..19 followed by 0..120 bytes that look like further messages; fragmentation = one segment / runs of 1-byte reads / boundary-sized fragments; 1 in 4 cases with every message's last AVP unpadded and the declared length exact (not a multiple of 4); consumed by ReadMessage in a loop on a scripted reader (which counts the bytes asked for), on bytes.Reader / bytes.Buffer / strings.Reader (which know how much they hold), through a bufio.Reader of the default and of the smallest size, and by the library's connection loop, whose handler optionally answers every message while one transport write is refused with a temporary error; non-trivial = >=2 messages and a read boundary strictly inside a message",
 	Gen:  genCase, Run: runCase, Classify: classify,
 })
 
